@@ -15,6 +15,7 @@ import (
 	"math/big"
 	"net"
 	"reservoir/utils/syncmap"
+	"sync"
 	"time"
 )
 
@@ -32,10 +33,17 @@ var (
 	ErrFailedToCreateX509Pair = errors.New("failed to create X509 key pair for cert")
 )
 
+// A cached certificate is no longer handed out when it expires within this time.
+const reuseMargin = time.Minute
+
 type PrivateCA struct {
 	key   crypto.PrivateKey
 	cert  *x509.Certificate
 	certs *syncmap.SyncMap[string, *tls.Certificate]
+
+	// Held while a host's certificate is looked up, issued and stored, so that tunnels to a new
+	// host that open at the same time are all presented the one certificate issued for it.
+	issueMu sync.Mutex
 }
 
 func NewPrivateCA(certFile, keyFile string) (*PrivateCA, error) {
@@ -129,8 +137,13 @@ func (ca *PrivateCA) GetCertForHost(host string) (*tls.Certificate, error) {
 		return nil, fmt.Errorf("%w: %v", ErrInvalidHostPort, err)
 	}
 
+	ca.issueMu.Lock()
+	defer ca.issueMu.Unlock()
+
 	if cert, ok := ca.certs.Get(host); ok {
-		expired := cert.Leaf.NotAfter.Before(time.Now())
+		// A certificate that is about to expire counts as expired: it has to stay valid until the
+		// client has verified it, which happens some time after this decision.
+		expired := cert.Leaf.NotAfter.Before(time.Now().Add(reuseMargin))
 		if expired {
 			slog.Warn("Certificate for %v is expired, deleting...", "host", host)
 			ca.certs.Delete(host)
